@@ -27,7 +27,8 @@ RULE = ("rules as in C01 (smaller pool) x single transformations with parameter 
         "add_field/remove_field/set_field; nest of two; identity instances of each; 35% of the cases: one item or a nest of 2-3 items with random "
         "parameters (mappings onto existing names, several prefixes, regexes, set_value of every plain type, templates, random include/exclude field lists)} x condition scopes (field include/exclude); distinct = distinct (rule, "
         "transformation); non-trivial = the transformation changes at least one atom or is an identity instance"
-        "; 25% after the same backend object converted another rule; a fixed stream of hand-picked rules x every named transformation x scopes; placeholder rules x value/wildcard placeholders (also inside a nest)")
+        "; 25% after the same backend object converted another rule; a fixed stream of hand-picked rules x every named transformation x scopes; placeholder rules x value/wildcard placeholders (also inside a nest)"
+        "; fixed rare-parameter pairs (added condition + in-place items after a prior rule, set_field + add_field after a prior rule, a prefix occurring twice in a field name, map_string to '' and [])")
 ASSUMPTIONS = c01.ASSUMPTIONS[:2] + [
     "the documented rewrites are the Lean functions of Spec/Rewrite.lean, interpreted by the Lean rule semantics; the Python rewriters of this harness are a cross-check (drift)",
     "Python re performs the substitutions of replace_string (the substitution function is a parameter of the rewrite, sent as a table over the plain forms of the strings of the rule)",
